@@ -34,6 +34,9 @@ for mp in sorted(glob.glob('/verif/seeded/*/meta.json')):
                         parts.append(f"missed by {tier}")
                     else:
                         parts.append(f"{tier}: exit {r['exit']} (inconclusive)")
+            for k2, r in det.items():
+                if k2.startswith('other:') and r['exit'] == 1 and r['violations']:
+                    parts.append(f"**{k2[6:]} quick** ({r['wall_s']:.0f} s)")
             ds = '; '.join(parts)
     else:
         ds = str(det) if det else 'not run'
